@@ -608,6 +608,13 @@ pub enum DigestAlgorithm {
     Sha3_512 = 14,
 }
 
+/// Index tag values for the %verifyscript scriptlet,
+pub(crate) const VERIFYSCRIPT_TAGS: ScriptletIndexTags = (
+    IndexTag::RPMTAG_VERIFYSCRIPT,
+    IndexTag::RPMTAG_VERIFYSCRIPTFLAGS,
+    IndexTag::RPMTAG_VERIFYSCRIPTPROG,
+);
+
 /// Index tag values for the %prein scriptlet,
 pub(crate) const PREIN_TAGS: ScriptletIndexTags = (
     IndexTag::RPMTAG_PREIN,
